@@ -145,44 +145,19 @@ Proof.
 Qed.
 
 (* ------------------------------------------------------------------ the loop of _extend_step in a windowed situation *)
-Definition agg_xe (e : expr) : plx := match tr_expr true e with Ok x => x | _ => PLit VNull end.
+Definition agg_xe (one : string) (e : expr) : plx := match tr_expr one true e with Ok x => x | _ => PLit VNull end.
 
-Lemma fold_extend_true pb (ops : list (string * expr)) temps acc : forallb agg_vocab (map snd ops) = true ->
-  fold_left (extend_fold_step true pb) ops (Ok (temps, acc)) = Ok (temps, acc ++ map (fun ke => (fst ke, COver (agg_xe (snd ke)) pb)) ops).
+Lemma fold_extend_true one pb (ops : list (string * expr)) temps acc names : forallb agg_vocab (map snd ops) = true ->
+  fold_left (extend_fold_step one true pb) ops (Ok (temps, acc, names)) =
+  Ok (temps, acc ++ map (fun ke => (fst ke, COver (agg_xe one (snd ke)) pb)) ops, names).
 Proof.
   revert acc. induction ops as [|ke t IH]; intros acc V; [simpl; rewrite app_nil_r; reflexivity|].
   cbn [map forallb] in V. apply andb_true_iff in V. destruct V as [V1 V2].
-  destruct (agg_plx_value (snd ke) V1) as [x [T _]].
-  assert (extend_fold_step true pb (Ok (temps, acc)) ke = Ok (temps, acc ++ [(fst ke, COver x pb)])) as S1.
-  { unfold extend_fold_step. cbn [rbind]. rewrite (agg_vocab_promote _ _ _ V1), T. cbn [rbind].
+  destruct (agg_plx_value one (snd ke) V1) as [x [T _]].
+  assert (extend_fold_step one true pb (Ok (temps, acc, names)) ke = Ok (temps, acc ++ [(fst ke, COver x pb)], names)) as S1.
+  { unfold extend_fold_step. cbn [rbind]. rewrite (agg_vocab_promote _ _ _ _ V1), T. cbn [rbind].
     destruct (snd ke) as [c|v|op args]; cbn [agg_vocab] in V1; try discriminate. reflexivity. }
   cbn [fold_left map]. rewrite S1, IH by exact V2. rewrite <- app_assoc. cbn [app]. unfold agg_xe at 2. rewrite T. reflexivity.
-Qed.
-
-Lemma extend_temps_ok t (ops : list (string * expr)) (part : list string) : forallb agg_vocab (map snd ops) = true ->
-  let temps0 := match part with [] => [(extend_part_col, CPlain (lit_int 1))] | _ => [] end in
-  temps_ok t (temps0 ++ req_temps (map snd ops)) (existsb needs_one (map snd ops)).
-Proof.
-  intros V temps0. rewrite (req_temps_agg _ V). constructor.
-  - unfold lit_temps. apply Forall_app. split.
-    + unfold temps0. destruct part; [|constructor]. constructor; [eexists; reflexivity|constructor].
-    + destruct (existsb needs_one (map snd ops)); [|constructor]. constructor; [eexists; reflexivity|constructor].
-  - intros k I. rewrite map_app, in_app_iff in I. destruct I as [I|I].
-    + unfold temps0 in I. destruct part; [|destruct I]. destruct I as [<-|[]]. reflexivity.
-    + destruct (existsb needs_one (map snd ops)); [|destruct I]. destruct I as [<-|[]]. reflexivity.
-  - intros N. rewrite N. rewrite last_for_app. reflexivity.
-Qed.
-
-Lemma agg_xe_value t temps need e grp pos :
-  temps_ok t temps need -> agg_vocab e = true -> (uses_one e = true -> need = true) ->
-  (forall r, In r grp -> List.length r = List.length (cols t)) ->
-  (forall c, In c (expr_cols e) -> is_reserved c = false) ->
-  plx_at (ext_cols (cols t) (map fst temps)) (map (temps_row t temps) grp) pos (agg_xe e) =
-  agg_fn fl_pandas (agg_name e) (map (argval e (cols t)) grp).
-Proof.
-  intros TO V U W NR. destruct (agg_plx_value e V) as [x [T E]]. unfold agg_xe. rewrite T. rewrite E.
-  - f_equal. rewrite map_map. apply map_ext_in. intros r I. eapply argval_temps; eauto.
-  - intros Uo r I. apply in_map_iff in I. destruct I as [r0 [<- I0]]. eapply temps_one; eauto.
 Qed.
 
 (* ------------------------------------------------------------------ the step *)
@@ -190,7 +165,7 @@ Lemma wextend_step_perm declared (ops : list (string * expr)) w t t' t2 :
   good t -> cols t = cols t' -> Permutation (rows t) (rows t') -> width_ok t' ->
   declared = ext_cols (cols t) (map fst ops) ->
   forallb agg_vocab (map snd ops) = true ->
-  (forall c, In c (cols t) \/ In c (map fst ops) \/ In c (flat_map (fun ke => expr_cols (snd ke)) ops) \/ In c (w_part w) -> is_reserved c = false) ->
+  (forall c, In c (flat_map (fun ke => expr_cols (snd ke)) ops) \/ In c (w_part w) -> In c (cols t)) ->
   pl_extend_step declared ops true w t = Ok t2 ->
   cols t2 = ext_cols (cols t) (map fst ops) /\ Permutation (rows t2) (rows (sem_wextend fl_pandas ops w t')).
 Proof.
@@ -203,13 +178,20 @@ Proof.
   { intros [A B]. split; [exact A|]. eapply perm_trans; eassumption. }
   clear PR P W' C t'.
   unfold pl_extend_step in H.
-  set (pb := match w_part w with [] => [extend_part_col] | (_ :: _) as p => p end) in *.
-  set (temps0 := match w_part w with [] => [(extend_part_col, CPlain (lit_int 1))] | _ :: _ => [] end) in *.
-  set (temps := temps0 ++ req_temps (map snd ops)) in *.
-  pose proof (extend_temps_ok t ops (w_part w) V) as TO. cbn zeta in TO. fold temps0 in TO. fold temps in TO.
+  set (used := ext_cols (cols t) (map fst ops)) in *.
+  set (P := fresh extend_part_base used) in *.
+  set (pb := match w_part w with [] => [P] | (_ :: _) as p => p end) in *.
+  set (names1 := match w_part w with [] => P :: used | _ :: _ => used end) in *.
+  set (z := fresh zero_base names1) in *.
+  set (o := fresh one_base (z :: names1)) in *.
+  set (temps0 := match w_part w with [] => [(P, CPlain (lit_int 1))] | _ :: _ => [] end) in *.
+  set (temps := temps0 ++ req_temps z o (map snd ops)) in *.
+  destruct (step_temps_ok (w_part w) extend_part_base used (map snd ops) V) as [TO LG].
+  fold P names1 z o temps0 temps in TO, LG.
+  assert (forall c, In c (cols t) -> In c used) as SubU by (intros c I; unfold used; apply In_ext_cols; left; exact I).
   rewrite fold_extend_true in H by exact V. cbn [rbind app] in H.
-  set (produced := map (fun ke => (fst ke, COver (agg_xe (snd ke)) pb)) ops) in *.
-  rewrite (with_columns_if_lits t temps (to_lit _ _ _ TO)) in H.
+  set (produced := map (fun ke => (fst ke, COver (agg_xe o (snd ke)) pb)) ops) in *.
+  rewrite (with_columns_if_lits t temps (to_lit _ _ _ _ TO)) in H.
   set (cs1 := ext_cols (cols t) (map fst temps)) in *.
   set (w1 := temps_row t temps) in *.
   set (r2 := match w_order w with
@@ -221,30 +203,30 @@ Proof.
   { unfold r2. destruct (w_order w); [apply Permutation_refl|]. cbn [pl_sort rows cols]. apply SemOrderP.stable_sort_perm. }
   set (r3 := pl_with_columns r2 produced) in *.
   assert (map fst produced = map fst ops) as MF by (unfold produced; rewrite map_map; reflexivity).
-  set (declared := ext_cols (cols t) (map fst ops)) in *.
+  set (declared := used) in *.
   assert (NoDup declared) as NDd by (apply NoDup_ext_cols; exact ND).
   (* rows of r2 are rows of t with the temporaries *)
   assert (forall row2, In row2 (rows r2) -> exists r, In r (rows t) /\ row2 = w1 r) as From.
   { intros row2 I. apply (Permutation_in _ P2) in I. apply in_map_iff in I. destruct I as [r [<- I]]. eauto. }
   assert (forall r, In r (rows t) -> List.length (w1 r) = List.length cs1) as L1.
   { intros r I. apply temps_row_len. apply width_row; auto. }
-  assert (forall r c, In r (rows t) -> is_reserved c = false -> get cs1 (w1 r) c = get (cols t) r c) as G1.
-  { intros r c I Nc. apply temps_row_get_user; [apply (to_lit _ _ _ TO)|apply width_row; auto|apply (to_res _ _ _ TO)|exact Nc]. }
+  assert (forall r c, In r (rows t) -> In c used -> get cs1 (w1 r) c = get (cols t) r c) as G1.
+  { intros r c I Nc. apply temps_row_get_user; [apply (to_lit _ _ _ _ TO)|apply width_row; auto|apply (temps_user temps used o _ c TO Nc)]. }
   (* the partition key of a row of r2 *)
   assert (forall r r0, In r (rows t) -> In r0 (rows t) ->
             keys_eqv (key_of cs1 pb (w1 r)) (key_of cs1 pb (w1 r0)) = keys_eqv (key_of (cols t) (w_part w) r) (key_of (cols t) (w_part w) r0)) as KP.
   { intros r r0 I I0. unfold pb. destruct (w_part w) as [|p0 pt] eqn:Ep.
-    - assert (forall x, In x (rows t) -> key_of cs1 [extend_part_col] (w1 x) = [qn (inject_Z 1)]) as K1.
+    - assert (forall x, In x (rows t) -> key_of cs1 [P] (w1 x) = [qn (inject_Z 1)]) as K1.
       { intros x Ix. unfold key_of. cbn [map]. f_equal. unfold cs1, w1.
-        rewrite temps_row_get by (try apply (to_lit _ _ _ TO); apply width_row; auto).
-        unfold temps, temps0. try rewrite Ep. rewrite (req_temps_agg _ V). destruct (existsb needs_one (map snd ops)); reflexivity. }
+        rewrite temps_row_get by (try apply (to_lit _ _ _ _ TO); apply width_row; auto).
+        rewrite (LG ltac:(first [reflexivity|exact Ep])). reflexivity. }
       rewrite (K1 r I), (K1 r0 I0). reflexivity.
     - assert (forall x, In x (rows t) -> key_of cs1 (p0 :: pt) (w1 x) = key_of (cols t) (p0 :: pt) x) as K1.
-      { intros x Ix. unfold key_of. apply map_ext_in. intros c Ic. apply G1; [exact Ix|]. apply NR. right. right. right. try rewrite Ep. exact Ic. }
+      { intros x Ix. unfold key_of. apply map_ext_in. intros c Ic. apply G1; [exact Ix|]. apply SubU, NR. right. try rewrite Ep. exact Ic. }
       rewrite (K1 r I), (K1 r0 I0). reflexivity. }
   (* a cell computed by .over on r2 *)
   assert (forall i r ke, nth_error (rows r2) i = Some (w1 r) -> In r (rows t) -> In ke ops ->
-            col_at r2 (COver (agg_xe (snd ke)) pb) i = wval (cols t) (rows t) (w_part w) (snd ke) r) as CV.
+            col_at r2 (COver (agg_xe o (snd ke)) pb) i = wval (cols t) (rows t) (w_part w) (snd ke) r) as CV.
   { intros i r ke N Ir Ike. cbn [col_at]. rewrite C2. rewrite (nth_error_nth _ _ [] N).
     rewrite (map_nth_filter_seq (fun r' => keys_eqv (key_of cs1 pb (w1 r)) (key_of cs1 pb r')) (rows r2)).
     assert (agg_vocab (snd ke) = true) as Vk by (rewrite forallb_forall in V; apply V; apply in_map; exact Ike).
@@ -256,20 +238,20 @@ Proof.
       apply Permutation_refl. }
     unfold wval.
     transitivity (agg_fn fl_pandas (agg_name (snd ke)) (map (argval (snd ke) cs1) (filter q (rows r2)))).
-    - destruct (agg_plx_value (snd ke) Vk) as [x [T E]]. unfold agg_xe. rewrite T. apply E.
+    - destruct (agg_plx_value o (snd ke) Vk) as [x [T E]]. unfold agg_xe. rewrite T. apply E.
       intros Uo row2 I2. apply filter_In in I2. destruct I2 as [I2 _]. destruct (From row2 I2) as [r0 [I0 ->]].
-      apply (temps_one t temps _ r0 TO); [|apply width_row; auto].
+      apply (temps_one t temps used o _ r0 TO); [|apply width_row; auto].
       eapply needs_one_of_uses; [exact V|apply in_map; exact Ike|exact Uo].
     - rewrite (agg_fn_perm fl_pandas _ _ _ (agg_vocab_name _ Vk) (Permutation_map (argval (snd ke) cs1) PF)).
       f_equal. rewrite map_map. apply map_ext_in. intros r0 I0. apply filter_In in I0. destruct I0 as [I0 _].
-      apply (argval_temps t temps _ (snd ke) r0 TO Vk); [apply width_row; auto|].
-      intros c Ic. apply NR. right. right. left. apply in_flat_map. exists ke. auto. }
+      apply (argval_temps t temps used o _ (snd ke) r0 TO Vk); [apply width_row; auto|].
+      intros c Ic. apply SubU, NR. left. apply in_flat_map. exists ke. auto. }
   (* the final rows, as a function of the rows of r2 *)
   set (unw := fun row2 : list val => map (get cs1 row2) (cols t)).
   assert (forall r, In r (rows t) -> unw (w1 r) = r) as UW.
   { intros r I. unfold unw. rewrite (map_ext_in (get cs1 (w1 r)) (get (cols t) r)).
     - apply get_map_self; [exact ND|apply width_row; auto].
-    - intros c Ic. apply G1; [exact I|]. apply NR. left. exact Ic. }
+    - intros c Ic. apply G1; [exact I|]. apply SubU. exact Ic. }
   assert (t2 = sem_select_cols declared r3) as E2.
   { unfold select_if in H. destruct temps eqn:Et.
     - injection H as H'. rewrite <- H'. clear H'. symmetry.
@@ -295,9 +277,9 @@ Proof.
   - intros c Ic. rewrite (get_map_get _ (get (cols r3) (wc_row r2 produced (i, w1 r)))) by assumption.
     unfold r3. rewrite cols_with_columns.
     rewrite wc_row_get by (rewrite C2; apply L1; exact Ir). rewrite C2.
-    unfold hrow, declared. rewrite (fold_cells_get_full (fun ke => wval (cols t) (rows t) (w_part w) (snd ke) r)) by exact L.
-    unfold produced at 1. rewrite (last_for_map (fun ke => (fst ke, COver (agg_xe (snd ke)) pb))) by reflexivity.
+    unfold hrow, declared, used. rewrite (fold_cells_get_full (fun ke => wval (cols t) (rows t) (w_part w) (snd ke) r)) by exact L.
+    unfold produced at 1. rewrite (last_for_map (fun ke => (fst ke, COver (agg_xe o (snd ke)) pb))) by reflexivity.
     destruct (last_for c ops) as [ke|] eqn:Lf; cbn [option_map snd].
     + destruct (last_for_Some _ _ _ Lf) as [_ Ike]. apply CV; assumption.
-    + apply G1; [exact Ir|]. apply NR. apply In_ext_cols in Ic. tauto.
+    + apply G1; [exact Ir|]. exact Ic.
 Qed.
